@@ -1,7 +1,7 @@
 (* C01 — property theorems.  Model: WModel/{LZ77,Codes,Encode,Compressor,WriterSM}.v — the pure-Go writer (acceleration level 0), compared byte for byte with the implementation on every run; the assembly levels are tied to it by the run-time contract checks (DESIGN.md 4.3).
    Only statements, each closed by `exact`, followed by Print Assumptions. *)
 From Coq Require Import ZArith.
-From Verif Require Import FinalSpec WriterTheorems WriterStateProofs TraceContent.
+From Verif Require Import OracleSpec WriterTheorems WriterStateProofs TraceContent Unconditional OracleProofs GenerateProofs.
 Open Scope N_scope.
 
 (* Writes and Flushes in any order and any partition, then Close, at any accelerated setting (level
@@ -13,6 +13,24 @@ Open Scope N_scope.
 Theorem C01_roundtrip : C01_statement.
 Proof. exact WriterTheorems.C01_roundtrip. Qed.
 Print Assumptions C01_roundtrip.
+
+(* The premise is in fact always true: the code-length generator (Moffat-Katajainen lengths + the
+   length limiter, Codes.generate) yields a valid prefix code for every histogram ... *)
+Theorem C01_generator_valid : generate_valid_statement.
+Proof. exact GenerateProofs.generate_valid. Qed.
+Print Assumptions C01_generator_valid.
+
+(* ... so the round trip holds with no premise at all on the model of the pure-Go writer *)
+Theorem C01_unconditional : C01_unconditional_statement.
+Proof. exact Unconditional.C01_unconditional. Qed.
+Print Assumptions C01_unconditional.
+
+(* and for ANY match finder (the assembly ones in particular): if the run made exactly the
+   recorded match-finder calls and each answer passed the contract check call_ok_b -- both evaluated
+   by the correspondence run at every accelerated level -- the same conclusion holds *)
+Theorem C01_any_match_finder : oracle_C01_statement.
+Proof. exact OracleProofs.oracle_C01. Qed.
+Print Assumptions C01_any_match_finder.
 
 (* the decidable premise is sound for the Prop it stands for *)
 Theorem C01_event_ok_b_sound : event_ok_b_sound_statement.
